@@ -14,16 +14,36 @@ import (
 	"github.com/formancehq/ledger/internal/api/bulking"
 	ledgercontroller "github.com/formancehq/ledger/internal/controller/ledger"
 	"github.com/formancehq/ledger/internal/machine"
+	"github.com/formancehq/ledger/internal/storage/common"
 	"github.com/formancehq/ledger/verifh/ev"
 	"github.com/formancehq/ledger/verifh/gen"
+	"github.com/formancehq/ledger/verifh/lx"
+	"github.com/formancehq/ledger/verifh/pgsim"
 	"github.com/formancehq/ledger/verifh/reg"
+	"github.com/formancehq/ledger/verifh/world"
 )
 
 // C25 — a postings request is recorded exactly as submitted.
 //
-// Every postings list of length <= L over {world,a,b}^2 x {COIN,USD/2} x
-// {0,1,5,2^64}, for every initial balance vector of a and b over {0,5} and
-// force on/off, goes through the real request path:
+// Two executors answer the same requests; the oracle is the same for both.
+//
+// (1) SQL store (runs FIRST, so that a time cut never drops it): every postings list of
+// length 1..2 over the 72-posting menu {world,a,b}^2 x {COIN,USD/2} x {0,1,5,2^64}, for
+// every initial balance vector of a and b over {0,5} and force on/off, is submitted to the
+// REAL ledger on pgsim: a ledger whose accounts were funded by an earlier committed
+// transaction (world -> a / b, both assets) is cloned per request, then
+//
+//	bulking.TransactionRequest{Postings, Force}.ToCore()       (validation + TxToScriptData)
+//	-> Controller.CreateTransaction (full controller stack of the system controller)
+//	   -> machine runtime -> vmStoreAdapter -> ledgerstore.Store.GetBalances (the locking
+//	      SELECT over accounts_volumes + the zero fill) -> commit
+//	-> the transaction is read back through Controller.ListTransactions
+//
+// so the balances the machine sees are the ones the storage layer answers for the
+// (account, asset) pairs of the WHOLE request (one account asked for one or two assets, two
+// accounts, a pair never written before...), not the ones of an in-memory map.
+//
+// (2) in-memory store: every list of length <= L (see below) goes through
 //
 //	bulking.TransactionRequest{Postings, Force}.ToCore()      (validation + TxToScriptData)
 //	-> CachedParser(DefaultNumscriptParser).Parse(script)      (as createTransaction does)
@@ -35,12 +55,147 @@ import (
 // Oracle (a sequential ledger of the two accounts): success <=> force or no
 // posting debits a non-world source below zero when applied in order (debit
 // before credit); on success result postings == submitted postings, field by
-// field, zero amounts included; on failure the error is insufficient funds.
+// field, zero amounts included (SQL store: the returned transaction AND the one read
+// back, and exactly one transaction was added); on failure the error is insufficient
+// funds (SQL store: and no transaction was added).
 func init() { reg.Register("C25", c25) }
 
 type c25Posting struct {
 	src, dst, asset string
 	amt             *big.Int
+}
+
+// c25Answer is what one executor answers to one request.
+type c25Answer struct {
+	compileErr error            // in-memory executor: the generated script does not parse
+	engineErr  error            // the harness (pgsim, boot) failed: never a violation
+	err        error            // the request failed
+	hasResult  bool             // a result came back (with or without an error)
+	returned   []ledger.Posting // postings of the returned result
+	// SQL store executor only
+	viaStore bool
+	stored   []ledger.Posting // postings of the newest transaction read back from the ledger
+	added    int              // transactions the request added to the ledger
+}
+
+// c25Exec runs one converted request against initial balances a={COIN ba, USD/2 bb},
+// b={COIN bb, USD/2 ba}.
+type c25Exec func(core *ledgercontroller.CreateTransaction, ba, bb int64) c25Answer
+
+func c25Balances(ba, bb int64) map[string]map[string]*big.Int {
+	return map[string]map[string]*big.Int{
+		"a": {assetMain: big.NewInt(ba), assetOther: big.NewInt(bb)},
+		"b": {assetMain: big.NewInt(bb), assetOther: big.NewInt(ba)},
+	}
+}
+
+// c25MemExec: the machine adapter over the in-memory store.
+func c25MemExec(parser ledgercontroller.NumscriptParser) c25Exec {
+	return func(core *ledgercontroller.CreateTransaction, ba, bb int64) (ans c25Answer) {
+		rt, err := parser.Parse(core.Plain)
+		if err != nil {
+			ans.compileErr = err
+			return
+		}
+		res, err := rt.Execute(context.Background(), newFakeStore(&gen.Env{Bal: c25Balances(ba, bb)}), core.Vars)
+		ans.err, ans.hasResult = err, res != nil
+		if res != nil {
+			ans.returned = res.Postings
+		}
+		return
+	}
+}
+
+const c25Ledger = "c25"
+
+// c25SQL holds one booted pgsim database per initial balance vector: ledger c25 with the
+// accounts funded by ONE committed transaction (world -> a, world -> b, both assets, the
+// zero balances left out so that those (account, asset) pairs have never been written).
+type c25SQL struct {
+	funded  map[[2]int64]*pgsim.DB
+	fundTxs map[[2]int64]int
+}
+
+func newC25SQL(ctx context.Context, balVals []int64) (*c25SQL, error) {
+	boot, err := lx.Boot(ctx, []lx.LedgerSpec{{Name: c25Ledger}})
+	if err != nil {
+		return nil, err
+	}
+	s := &c25SQL{funded: map[[2]int64]*pgsim.DB{}, fundTxs: map[[2]int64]int{}}
+	for _, ba := range balVals {
+		for _, bb := range balVals {
+			pg := boot.Clone()
+			var ps []lx.P
+			for _, acc := range []string{"a", "b"} {
+				for _, as := range []string{assetMain, assetOther} {
+					if v := c25Balances(ba, bb)[acc][as]; v.Sign() > 0 {
+						ps = append(ps, lx.P{Src: "world", Dst: acc, Ast: as, Amt: v.String()})
+					}
+				}
+			}
+			if len(ps) > 0 {
+				w := world.Attach(pg)
+				ctrl, err := w.Sys.GetLedgerController(ctx, c25Ledger)
+				if err != nil {
+					w.Close()
+					return nil, err
+				}
+				out := lx.Apply(ctx, ctrl, lx.Op{Kind: "post", Postings: ps})
+				w.Close()
+				if out.Err != nil {
+					return nil, fmt.Errorf("funding %v: %w", ps, out.Err)
+				}
+				s.fundTxs[[2]int64{ba, bb}] = 1
+			}
+			s.funded[[2]int64{ba, bb}] = pg
+		}
+	}
+	return s, nil
+}
+
+// exec: one request on a private clone of the funded ledger, through the real controller
+// stack (as the bulker / the v2 transaction route call it), then the read back.
+func (s *c25SQL) exec(core *ledgercontroller.CreateTransaction, ba, bb int64) (ans c25Answer) {
+	ans.viaStore = true
+	ctx := context.Background()
+	key := [2]int64{ba, bb}
+	base, ok := s.funded[key]
+	if !ok {
+		ans.engineErr = fmt.Errorf("no funded database for balances %v", key)
+		return
+	}
+	w := world.Attach(base.Clone())
+	defer w.Close()
+	ctrl, err := w.Sys.GetLedgerController(ctx, c25Ledger)
+	if err != nil {
+		ans.engineErr = err
+		return
+	}
+	_, res, _, err := ctrl.CreateTransaction(ctx, ledgercontroller.Parameters[ledgercontroller.CreateTransaction]{Input: *core})
+	if lx.Classify(err) == "ENGINE" {
+		ans.engineErr = err
+		return
+	}
+	ans.err, ans.hasResult = err, res != nil
+	if res != nil {
+		ans.returned = res.Transaction.Postings
+	}
+	txs, lerr := lx.ListTxs(ctx, ctrl, common.ResourceQuery[any]{})
+	if lerr != nil {
+		ans.engineErr = fmt.Errorf("reading the transactions back: %w", lerr)
+		return
+	}
+	ans.added = len(txs) - s.fundTxs[key]
+	var newest *ledger.Transaction
+	for i := range txs {
+		if newest == nil || (txs[i].ID != nil && newest.ID != nil && *txs[i].ID > *newest.ID) {
+			newest = &txs[i]
+		}
+	}
+	if newest != nil && ans.added > 0 {
+		ans.stored = newest.Postings
+	}
+	return
 }
 
 func c25() int {
@@ -72,93 +227,137 @@ func c25() int {
 	}
 	balVals := []int64{0, 5}
 
-	var evals, okRuns, failRuns, nontrivial, forcedOverdraft, zeroRecorded, selfPostings atomic.Int64
-	samples := ev.NewSamples(6)
+	var st c25Stats
 	var exhaustive atomic.Bool
 	exhaustive.Store(true)
 
-	type job struct{ list []c25Posting }
-	jobs := make(chan []job, 64)
-	var wg sync.WaitGroup
-	for w := 0; w < runtime.NumCPU(); w++ {
-		wg.Add(1)
-		go func() {
-			defer wg.Done()
-			// one production-style parser per worker: cache in front of the compiler,
-			// so compiled programs are reused across executions as in the server
-			parser := ledgercontroller.NewCachedNumscriptParser(ledgercontroller.NewDefaultNumscriptParser(), ledgercontroller.CacheConfiguration{MaxCount: 4096})
-			for batch := range jobs {
-				for _, j := range batch {
-					if r.Expired() {
-						exhaustive.Store(false)
-						continue
-					}
-					listOK := false
-					for _, ba := range balVals {
-						for _, bb := range balVals {
-							for _, force := range []bool{false, true} {
-								evals.Add(1)
-								if c25Case(r, parser, j.list, ba, bb, force, samples, &forcedOverdraft, &zeroRecorded, &selfPostings) {
-									okRuns.Add(1)
-									listOK = true
-								} else {
-									failRuns.Add(1)
+	// runPhase feeds every list produced by gen to NumCPU workers; each worker builds its
+	// executor with mk.
+	runPhase := func(ph *c25Phase, mk func() c25Exec, gen func(emit func([]c25Posting))) {
+		type job struct{ list []c25Posting }
+		jobs := make(chan []job, 64)
+		var wg sync.WaitGroup
+		for w := 0; w < runtime.NumCPU(); w++ {
+			wg.Add(1)
+			go func() {
+				defer wg.Done()
+				exec := mk()
+				for batch := range jobs {
+					for _, j := range batch {
+						if r.Expired() || r.HasEngineError() {
+							exhaustive.Store(false)
+							ph.cut.Store(true)
+							continue
+						}
+						listOK := false
+						for _, ba := range balVals {
+							for _, bb := range balVals {
+								for _, force := range []bool{false, true} {
+									ph.evals.Add(1)
+									if c25Case(r, ph, exec, j.list, ba, bb, force, &st) {
+										ph.okRuns.Add(1)
+										listOK = true
+									} else {
+										ph.failRuns.Add(1)
+									}
 								}
 							}
 						}
-					}
-					if listOK {
-						nontrivial.Add(1)
+						if listOK {
+							ph.nontrivial.Add(1)
+						}
 					}
 				}
+			}()
+		}
+		var batch []job
+		gen(func(l []c25Posting) {
+			ph.lists++
+			batch = append(batch, job{append([]c25Posting{}, l...)})
+			if len(batch) == ph.batch {
+				jobs <- batch
+				batch = nil
 			}
-		}()
-	}
-	var lists int64
-	var batch []job
-	emit := func(l []c25Posting) {
-		lists++
-		batch = append(batch, job{append([]c25Posting{}, l...)})
-		if len(batch) == 64 {
+		})
+		if len(batch) > 0 {
 			jobs <- batch
-			batch = nil
 		}
+		close(jobs)
+		wg.Wait()
 	}
-	for _, p1 := range menu {
-		emit([]c25Posting{p1})
+
+	// ---- (1) the SQL store ------------------------------------------------------------
+	sqlPhase := &c25Phase{name: "sql-store", sigPrefix: "C25:sql-store:", batch: 8, samples: ev.NewSamples(3)}
+	sql, err := newC25SQL(context.Background(), balVals)
+	if err != nil {
+		r.EngineError("C25 SQL store: " + err.Error())
+	} else {
+		runPhase(sqlPhase, func() c25Exec { return sql.exec }, func(emit func([]c25Posting)) {
+			for _, p1 := range menu {
+				emit([]c25Posting{p1})
+			}
+			for _, p1 := range menu {
+				if r.Expired() {
+					exhaustive.Store(false)
+					sqlPhase.cut.Store(true)
+					break
+				}
+				for _, p2 := range menu {
+					emit([]c25Posting{p1, p2})
+				}
+			}
+		})
 	}
-	for _, p1 := range menu {
-		for _, p2 := range menu {
-			emit([]c25Posting{p1, p2})
+
+	// ---- (2) the in-memory store ------------------------------------------------------
+	memPhase := &c25Phase{name: "in-memory-store", sigPrefix: "C25:", batch: 64, samples: ev.NewSamples(3)}
+	runPhase(memPhase, func() c25Exec {
+		// one production-style parser per worker: cache in front of the compiler,
+		// so compiled programs are reused across executions as in the server
+		return c25MemExec(ledgercontroller.NewCachedNumscriptParser(ledgercontroller.NewDefaultNumscriptParser(), ledgercontroller.CacheConfiguration{MaxCount: 4096}))
+	}, func(emit func([]c25Posting)) {
+		for _, p1 := range menu {
+			emit([]c25Posting{p1})
 		}
-	}
-	for _, p1 := range menu3 {
-		if r.Expired() {
-			exhaustive.Store(false)
-			break
-		}
-		for _, p2 := range menu3 {
-			for _, p3 := range menu3 {
-				emit([]c25Posting{p1, p2, p3})
+		for _, p1 := range menu {
+			for _, p2 := range menu {
+				emit([]c25Posting{p1, p2})
 			}
 		}
-	}
-	if len(batch) > 0 {
-		jobs <- batch
-	}
-	close(jobs)
-	wg.Wait()
+		for _, p1 := range menu3 {
+			if r.Expired() {
+				exhaustive.Store(false)
+				memPhase.cut.Store(true)
+				break
+			}
+			for _, p2 := range menu3 {
+				for _, p3 := range menu3 {
+					emit([]c25Posting{p1, p2, p3})
+				}
+			}
+		}
+	})
 
 	if r.ViolationCount() == 0 {
+		for _, ph := range []*c25Phase{sqlPhase, memPhase} {
+			switch {
+			case ph.okRuns.Load() == 0:
+				r.EngineError("vacuous: " + ph.name + ": no request succeeded")
+			case ph.failRuns.Load() == 0:
+				r.EngineError("vacuous: " + ph.name + ": no request failed with insufficient funds")
+			case ph.forcedOverdraft.Load() == 0:
+				r.EngineError("vacuous: " + ph.name + ": force never rescued an overdrawing list")
+			case ph.zeroRecorded.Load() == 0:
+				r.EngineError("vacuous: " + ph.name + ": no zero-amount posting was recorded")
+			}
+		}
 		switch {
-		case okRuns.Load() == 0:
-			r.EngineError("vacuous: no request succeeded")
-		case failRuns.Load() == 0:
-			r.EngineError("vacuous: no request failed with insufficient funds")
-		case forcedOverdraft.Load() == 0:
-			r.EngineError("vacuous: force never rescued an overdrawing list")
-		case zeroRecorded.Load() == 0:
-			r.EngineError("vacuous: no zero-amount posting was recorded")
+		case st.sameSourceTwoAssetsOK.Load() == 0:
+			r.EngineError("vacuous: sql-store: no successful unforced request in which one funded account is the source for two different assets")
+		case st.readBack.Load() == 0:
+			r.EngineError("vacuous: sql-store: no committed transaction was read back")
+		case st.failedAddedNothing.Load() == 0:
+			r.EngineError("vacuous: sql-store: no failed request was checked for leaving the ledger unchanged")
 		}
 	}
 	bound3 := "length 3 over all 9 account pairs x {COIN 0, COIN 5, COIN 2^64, USD/2 5}"
@@ -166,44 +365,93 @@ func c25() int {
 		bound3 = "length 3 over the full menu"
 	}
 	cov := ev.Coverage{
-		"evaluations":         evals.Load(),
-		"distinct_nontrivial": nontrivial.Load(),
-		"rule": fmt.Sprintf("every postings list of length 1..2 over the 72-posting menu {world,a,b}^2 x {COIN,USD/2} x {0,1,5,2^64}, plus %s (%d-posting menu), x balances of a,b in {0,5}^2 (USD/2 balances = COIN balances swapped) x force off/on; %d lists; distinct_nontrivial = distinct lists with at least one successful request whose recorded postings were compared field by field",
-			bound3, len(menu3), lists),
-		"samples":                       samples.List(),
-		"exhaustive":                    exhaustive.Load(),
-		"lists":                         lists,
-		"requests_succeeded":            okRuns.Load(),
-		"requests_failed_insufficient":  failRuns.Load(),
-		"forced_requests_that_overdraw": forcedOverdraft.Load(),
-		"zero_amount_postings_recorded": zeroRecorded.Load(),
-		"self_postings_checked":         selfPostings.Load(),
-		"traces_validated_against_impl": evals.Load(),
+		"evaluations":         sqlPhase.evals.Load() + memPhase.evals.Load(),
+		"distinct_nontrivial": sqlPhase.nontrivial.Load() + memPhase.nontrivial.Load(),
+		"rule": fmt.Sprintf("72-posting menu {world,a,b}^2 x {COIN,USD/2} x {0,1,5,2^64}; balances of a,b in {0,5}^2 (USD/2 balances = COIN balances swapped) x force off/on for every list. "+
+			"(1) sql-store, first: every list of length 1..2 over the menu (%d lists) submitted through the real controller stack to a ledger on pgsim whose accounts were funded by an earlier committed transaction (one clone per request; balances come from ledgerstore.Store.GetBalances for all (account, asset) pairs of the request at once: one source with one or two assets, two sources, never-written pairs), result compared with the submitted postings both as returned and as read back by ListTransactions, a failed request must add no transaction; "+
+			"(2) in-memory-store: every list of length 1..2 over the menu, plus %s (%d-posting menu), on MachineNumscriptRuntimeAdapter over an in-memory store (%d lists); "+
+			"distinct_nontrivial = distinct lists (per executor) with at least one successful request whose recorded postings were compared field by field",
+			sqlPhase.lists, bound3, len(menu3), memPhase.lists),
+		"samples":    append(sqlPhase.samples.List(), memPhase.samples.List()...),
+		"exhaustive": exhaustive.Load(),
+		"lists":      sqlPhase.lists + memPhase.lists,
+		"phases": []any{
+			sqlPhase.coverage(),
+			memPhase.coverage(),
+		},
+		"requests_succeeded":                                              sqlPhase.okRuns.Load() + memPhase.okRuns.Load(),
+		"requests_failed_insufficient":                                    sqlPhase.failRuns.Load() + memPhase.failRuns.Load(),
+		"forced_requests_that_overdraw":                                   sqlPhase.forcedOverdraft.Load() + memPhase.forcedOverdraft.Load(),
+		"zero_amount_postings_recorded":                                   sqlPhase.zeroRecorded.Load() + memPhase.zeroRecorded.Load(),
+		"self_postings_checked":                                           sqlPhase.selfPostings.Load() + memPhase.selfPostings.Load(),
+		"sql_store_unforced_successes_with_one_source_sending_two_assets": st.sameSourceTwoAssetsOK.Load(),
+		"sql_store_transactions_read_back":                                st.readBack.Load(),
+		"sql_store_failed_requests_that_added_nothing":                    st.failedAddedNothing.Load(),
+		"traces_validated_against_impl":                                   sqlPhase.evals.Load() + memPhase.evals.Load(),
 	}
 	return r.Finish(cov, []string{
-		"`recorded` = NumscriptExecutionResult.Postings returned by MachineNumscriptRuntimeAdapter, which createTransaction commits unchanged (ledger.NewTransaction().WithPostings(result.Postings...)); the SQL commit itself is outside this check",
+		"in-memory-store: `recorded` = NumscriptExecutionResult.Postings returned by MachineNumscriptRuntimeAdapter, which createTransaction commits unchanged (ledger.NewTransaction().WithPostings(result.Postings...)); sql-store: `recorded` = the postings of the transaction CreateTransaction returns and of the one ListTransactions reads back after the commit",
 		"sequential application debits the source before crediting the destination, so a->a for more than a's balance counts as overdrawing",
-		"store = in-memory balances; every queried (account, asset) pair is answered (0 when never seen) as the SQL store does",
+		"in-memory store: every queried (account, asset) pair is answered (0 when never seen) as the SQL store does",
+		"sql-store: default runtime (machine) and default ledger features; the interpreter runtime drops zero-amount postings (C26's documented difference) and is not submitted here",
+		"pgsim: hand-written in-process model of the Postgres subset the ledger uses (READ COMMITTED MVCC, row/advisory locks, triggers, PL/pgSQL); it cannot be validated against a real server in this sandbox",
 	})
 }
 
-// c25Case runs one request; returns true when it succeeded.
-func c25Case(r *ev.Run, parser ledgercontroller.NumscriptParser, list []c25Posting, ba, bb int64, force bool,
-	samples *ev.Samples, forcedOverdraft, zeroRecorded, selfPostings *atomic.Int64) (ok bool) {
-	bal := map[string]map[string]*big.Int{
-		"a": {assetMain: big.NewInt(ba), assetOther: big.NewInt(bb)},
-		"b": {assetMain: big.NewInt(bb), assetOther: big.NewInt(ba)},
+// c25Phase: the counters of one executor.
+type c25Phase struct {
+	name, sigPrefix string
+	batch           int
+	samples         *ev.Samples
+	lists           int64
+	cut             atomic.Bool
+
+	evals, okRuns, failRuns, nontrivial         atomic.Int64
+	forcedOverdraft, zeroRecorded, selfPostings atomic.Int64
+}
+
+func (ph *c25Phase) coverage() map[string]any {
+	return map[string]any{
+		"executor": ph.name, "lists": ph.lists, "requests": ph.evals.Load(), "completed": !ph.cut.Load(),
+		"requests_succeeded": ph.okRuns.Load(), "requests_failed_insufficient": ph.failRuns.Load(),
+		"lists_with_a_compared_success": ph.nontrivial.Load(),
 	}
+}
+
+type c25Stats struct {
+	sameSourceTwoAssetsOK, readBack, failedAddedNothing atomic.Int64
+}
+
+// c25SameSourceTwoAssets: some non-world account is the source of postings in two
+// different assets.
+func c25SameSourceTwoAssets(list []c25Posting) bool {
+	seen := map[string]string{}
+	for _, p := range list {
+		if p.src == "world" {
+			continue
+		}
+		if a, ok := seen[p.src]; ok && a != p.asset {
+			return true
+		}
+		seen[p.src] = p.asset
+	}
+	return false
+}
+
+// c25Case runs one request; returns true when it succeeded.
+func c25Case(r *ev.Run, ph *c25Phase, exec c25Exec, list []c25Posting, ba, bb int64, force bool, st *c25Stats) (ok bool) {
+	bal := c25Balances(ba, bb)
+	sig := func(s string) string { return ph.sigPrefix + s }
 	replay := func() map[string]any {
 		var ps []string
 		for _, p := range list {
 			ps = append(ps, fmt.Sprintf("%s->%s %s %s", p.src, p.dst, p.amt, p.asset))
 		}
-		return map[string]any{"postings": ps, "balances": balString(bal), "force": force}
+		return map[string]any{"postings": ps, "balances": balString(bal), "force": force, "executor": ph.name}
 	}
 	defer func() {
 		if p := recover(); p != nil {
-			r.Violation("C25:panic", fmt.Sprintf("panic on the request path: %v", p), replay())
+			r.Violation(sig("panic"), fmt.Sprintf("panic on the request path (%s): %v", ph.name, p), replay())
 			ok = false
 		}
 	}()
@@ -236,63 +484,95 @@ func c25Case(r *ev.Run, parser ledgercontroller.NumscriptParser, list []c25Posti
 
 	core, err := req.ToCore()
 	if err != nil {
-		r.Violation("C25:tocore-rejects-valid-postings", "ToCore: "+err.Error(), replay())
+		r.Violation(sig("tocore-rejects-valid-postings"), "ToCore: "+err.Error(), replay())
 		return false
 	}
-	rt, err := parser.Parse(core.Plain)
-	if err != nil {
-		r.Violation("C25:generated-script-does-not-compile", "Parse: "+shortErr(err)+" | script: "+core.Plain, replay())
+	ans := exec(core, ba, bb)
+	if ans.engineErr != nil {
+		r.EngineError(fmt.Sprintf("%s: %v | request %v", ph.name, shortErr(ans.engineErr), replay()))
 		return false
 	}
-	env := &gen.Env{Bal: bal}
-	res, err := rt.Execute(context.Background(), newFakeStore(env), core.Vars)
-	if err != nil {
-		if res != nil {
-			r.Violation("C25:result-with-error", "Execute returned both a result and an error", replay())
+	if ans.compileErr != nil {
+		r.Violation(sig("generated-script-does-not-compile"), "Parse: "+shortErr(ans.compileErr)+" | script: "+core.Plain, replay())
+		return false
+	}
+	if err := ans.err; err != nil {
+		if ans.hasResult {
+			r.Violation(sig("result-with-error"), "the request returned both a result and an error", replay())
 		}
-		insufficient := machine.IsInsufficientFundError(err) || errors.Is(err, &ledgercontroller.ErrInsufficientFunds{})
+		insufficient := machine.IsInsufficientFundError(err) || errors.Is(err, &ledgercontroller.ErrInsufficientFunds{}) || lx.Classify(err) == "insufficient_funds"
 		switch {
 		case force:
-			r.Violation("C25:fails-with-force", "request with force failed: "+shortErr(err), replay())
+			r.Violation(sig("fails-with-force"), "request with force failed: "+shortErr(err), replay())
 		case wantOK:
-			r.Violation("C25:fails-without-overdraw", "no non-world source goes below zero, yet: "+shortErr(err), replay())
+			r.Violation(sig("fails-without-overdraw"), fmt.Sprintf("postings %v with balances %v: applying them in order takes no non-world source below zero, yet the request fails: %s", replay()["postings"], balString(bal), shortErr(err)), replay())
 		case !insufficient:
-			r.Violation("C25:wrong-error-kind", "overdrawing request failed with something else than insufficient funds: "+shortErr(err), replay())
+			r.Violation(sig("wrong-error-kind"), "overdrawing request failed with something else than insufficient funds: "+shortErr(err), replay())
+		}
+		if ans.viaStore {
+			if ans.added != 0 {
+				r.Violation(sig("failed-request-recorded-a-transaction"), fmt.Sprintf("the request failed (%s) but the ledger holds %d more transaction(s): %v", shortErr(err), ans.added, ans.stored), replay())
+			} else {
+				st.failedAddedNothing.Add(1)
+			}
 		}
 		return false
 	}
 	if !wantOK {
-		r.Violation("C25:succeeds-while-overdrawing", fmt.Sprintf("applying the postings in order overdraws a source, but the request succeeded with %d postings", len(res.Postings)), replay())
+		r.Violation(sig("succeeds-while-overdrawing"), fmt.Sprintf("applying the postings in order overdraws a source, but the request succeeded with %d postings", len(ans.returned)), replay())
 		return true
 	}
 	if force && overdraws {
-		forcedOverdraft.Add(1)
+		ph.forcedOverdraft.Add(1)
 	}
-	if len(res.Postings) != len(list) {
-		sig := "C25:recorded-count-differs"
-		for _, p := range list {
-			if p.amt.Sign() == 0 {
-				sig = "C25:recorded-count-differs:zero-amount-present"
-			}
-		}
-		r.Violation(sig, fmt.Sprintf("submitted %d postings, recorded %d: %v", len(list), len(res.Postings), res.Postings), replay())
-		return true
-	}
-	for i, p := range list {
-		g := res.Postings[i]
-		if g.Source != p.src || g.Destination != p.dst || g.Asset != p.asset || g.Amount == nil || g.Amount.Cmp(p.amt) != 0 {
-			r.Violation("C25:recorded-posting-differs", fmt.Sprintf("posting %d: submitted %s->%s %s %s, recorded %s->%s %v %s", i, p.src, p.dst, p.amt, p.asset, g.Source, g.Destination, g.Amount, g.Asset), replay())
+	views := []struct {
+		what string
+		ps   []ledger.Posting
+	}{{"recorded", ans.returned}}
+	if ans.viaStore {
+		if ans.added != 1 {
+			r.Violation(sig("successful-request-did-not-add-one-transaction"), fmt.Sprintf("the request succeeded but the ledger holds %d more transaction(s) than before", ans.added), replay())
 			return true
 		}
-		if p.amt.Sign() == 0 {
-			zeroRecorded.Add(1)
+		st.readBack.Add(1)
+		views[0].what = "returned"
+		views = append(views, struct {
+			what string
+			ps   []ledger.Posting
+		}{"read back", ans.stored})
+	}
+	for _, v := range views {
+		if len(v.ps) != len(list) {
+			s := "recorded-count-differs"
+			for _, p := range list {
+				if p.amt.Sign() == 0 {
+					s = "recorded-count-differs:zero-amount-present"
+				}
+			}
+			r.Violation(sig(s), fmt.Sprintf("submitted %d postings, %s %d: %v", len(list), v.what, len(v.ps), v.ps), replay())
+			return true
 		}
-		if p.src == p.dst {
-			selfPostings.Add(1)
+		for i, p := range list {
+			g := v.ps[i]
+			if g.Source != p.src || g.Destination != p.dst || g.Asset != p.asset || g.Amount == nil || g.Amount.Cmp(p.amt) != 0 {
+				r.Violation(sig("recorded-posting-differs"), fmt.Sprintf("posting %d: submitted %s->%s %s %s, %s %s->%s %v %s", i, p.src, p.dst, p.amt, p.asset, v.what, g.Source, g.Destination, g.Amount, g.Asset), replay())
+				return true
+			}
 		}
 	}
-	if len(list) == 3 && force {
-		samples.Add(map[string]any{"request": replay(), "script": core.Plain, "vars": core.Vars, "recorded": fmt.Sprint(res.Postings)})
+	for _, p := range list {
+		if p.amt.Sign() == 0 {
+			ph.zeroRecorded.Add(1)
+		}
+		if p.src == p.dst {
+			ph.selfPostings.Add(1)
+		}
+	}
+	if ans.viaStore && !force && c25SameSourceTwoAssets(list) {
+		st.sameSourceTwoAssetsOK.Add(1)
+	}
+	if (len(list) == 3 || ans.viaStore && len(list) == 2) && force {
+		ph.samples.Add(map[string]any{"request": replay(), "script": core.Plain, "vars": core.Vars, "recorded": fmt.Sprint(ans.returned)})
 	}
 	return true
 }
